@@ -107,7 +107,7 @@ class C02(Campaign):
         return gen.knobs(async_modes=ASYNC_MODES, drivers=["sync", "sync", "inloop", "threads_in_turn"],
                          p_action=0.7 if dense else 0.25, p_state_action=0.6 if dense else 0.2,
                          p_conv=0.5 if dense else 0.15, p_validator=0.3, p_internal=0.2, p_self=0.25,
-                         p_multi_event=0.4, p_unknown_event=0.05)
+                         p_multi_event=0.4, p_unknown_event=0.05, p_multi_group_name=0.3)
 
     def nontrivial(self, sc, ev):
         groups = 0
@@ -141,12 +141,16 @@ class C14(Campaign):
             "on part, each as a multiset; 0 -> None, 1 -> unwrapped). Non-trivial = some send returned a "
             "non-None result; distinct = distinct trace digests among those.")
     assumptions = ["order of values inside the before part and inside the on part is not constrained",
-                   "envelope: no nested sends, fault-free"]
+                   "a result is only judged when state, exception and callback sequence of the operation agree "
+                   "with the reference (so that queue-order or selection defects are not reported here)",
+                   "fault-free; nested sends present in about half of the runs (results of queued events must not "
+                   "leak into, or replace, the result of the event that was sent)"]
 
     def knobs(self, rnd, tier):
-        return gen.knobs(async_modes=ASYNC_MODES, drivers=["sync", "inloop"], p_action=0.6, p_ret=0.85,
+        return gen.knobs(async_modes=ASYNC_MODES, drivers=["sync", "inloop"], p_action=0.6, p_ret=0.7,
                          p_conv=0.4, p_internal=0.2, p_self=0.2, p_multi_event=0.4,
-                         allow=[False, True], p_unknown_event=0.1)
+                         allow=[False, True, True], p_unknown_event=0.1, senders=(0, 2), sends_per=(1, 2),
+                         sends_jlt=(1, 2))
 
     def scenario(self, rnd, tier):
         sc = super().scenario(rnd, tier)
